@@ -13,7 +13,9 @@ RULE = (
     "{enter, leave, both} x {swc_utils.traverse, Tree.traverse(root=), Tree.Node.traverse} x start as int/np.int32; "
     "callbacks are free term builders (return a fresh object embedding everything received) so every callback pair "
     "that is a function of its arguments observes a homomorphic image; deep chains/combs/brooms of 1e4..1e5 nodes; "
-    "whole small space re-run under a lowered recursion limit. Non-trivial = tree with >= 2 nodes."
+    "whole small space re-run under a lowered recursion limit; EVERY chain length 1..1200 (3000) so that any size threshold is crossed; "
+    "histories query -> in-place re-parenting (every admissible single edit, via node handle / column / on a copy) -> query again. "
+    "Non-trivial = tree with >= 2 nodes."
 )
 ASSUMPTIONS = [
     "sibling order is unspecified: the children's values are compared as a multiset (by object identity)",
@@ -134,15 +136,35 @@ def judge(p, ch, start, mode, log, ret, bad):
     return ""
 
 
+def _warm(t):
+    """Query the tree through every traversal-based API once (whatever they cache is now warm)."""
+    t.traverse(enter=lambda n, pv: None, leave=lambda n, cv: None)
+    for i in range(len(t)):
+        t.node(i).traverse(leave=lambda n, cv: None)
+    t.get_branches(), t.get_paths(), t.get_furcations(), t.get_tips()
+
+
 def check_tree(case, R):
     p = list(case[0])
     limit = case[1] if len(case) > 1 else 0
+    edit = case[2] if len(case) > 2 else None
     n = len(p)
     if n < 2:
         R.trivial()
-    R.state(p)
-    ch = ref.children(p)
     t = build.make_tree(p)
+    if edit is not None:
+        # history: query, re-parent one node in place, query again -> must be the traversal of the CURRENT tree
+        t, p, other, other_p = build.apply_reparent(t, p, edit, _warm)
+        if other is not None:
+            R.state("edited-copy-origin", other_p, edit)
+            check_on(other, other_p, 0, R, "after-copy-edit:origin")
+    R.state(p, edit)
+    check_on(t, p, limit, R, "" if edit is None else "after-edit:" + edit[2])
+
+
+def check_on(t, p, limit, R, tag):
+    n = len(p)
+    ch = ref.children(p)
     ids, pids = t.id().copy(), t.pid().copy()
     snap = build.snapshot(t)
     for start in range(n):
@@ -161,7 +183,8 @@ def check_tree(case, R):
                     log, ret, bad = res
                     why = judge(p, ch, start, mode, log, ret, bad)
                     if why:
-                        R.fail("traversal", f"p={p} start={start} mode={mode} api={api} np={as_np}: {why}", f"traversal:{api}")
+                        R.fail("traversal", f"{tag} p={p} start={start} mode={mode} api={api} np={as_np}: {why}",
+                               f"traversal:{api}" + (":" + tag if tag else ""))
         R.outcome(len(ref.descendants_or_self(p, start)), len(ch[start]))
     R.check(build.snapshot(t) == snap, "input-modified", f"p={p}")
 
@@ -219,6 +242,38 @@ def check_big(case, R):
     R.outcome(kind, n)
 
 
+def check_sweep(case, R):
+    """One chain length; the sweep covers EVERY length up to the bound, so any size threshold at which an
+    implementation switches strategy (e.g. a recursive fast path for 'small' trees) is crossed."""
+    kind, n, limit = case
+    p = big_tree(kind, n) if n > 2 else ([-1] + [0] * (n - 1))
+    R.state(kind, n, limit)
+    if n < 2:
+        R.trivial()
+    ch = ref.children(p)
+    from swcgeom.core import Tree
+
+    t = Tree(n, id=np.arange(n, dtype=np.int32), pid=np.array(p, dtype=np.int32))
+    ids, pids = t.id(), t.pid()
+    for api in ("topology", "tree", "node"):
+        if api != "topology" and n > 400 and n % 7:  # handle-based APIs are 10x slower: every 7th length above 400
+            continue
+        def go():
+            if limit:
+                with recursion_limit(limit):
+                    return traverse_once(api, t, ids, pids, 0, "both", False)
+            return traverse_once(api, t, ids, pids, 0, "both", False)
+
+        ok, res = R.impl(f"traverse:{api}:sweep", go, klass=f"raises:depth-sweep:{kind}")
+        if not ok:
+            continue
+        log, ret, bad = res
+        why = judge(p, ch, 0, "both", log, ret, bad)
+        if why:
+            R.fail("traversal:sweep", f"{kind} n={n} api={api}: {why}", f"traversal:sweep:{api}")
+    R.outcome(kind, min(n, 3), bool(limit))
+
+
 def spaces(tier, seed):
     hi = 6 if tier == "quick" else 7
     lim_hi = 5 if tier == "quick" else 6
@@ -241,7 +296,28 @@ def spaces(tier, seed):
             yield (kind, 2_000, 0)
             yield (kind, big_n, 0)
 
+    ed_hi = 5 if tier == "quick" else 6
+    sweep_hi = 1200 if tier == "quick" else 3000
+
+    def gen_edit():
+        for n in range(2, ed_hi + 1):
+            for p in S.sorted_trees(n):
+                for (i, j) in build.reparent_edits(p):
+                    for how in build.EDIT_HOWS:
+                        yield (p, 0, (i, j, how))
+
+    def gen_sweep():
+        for n in range(1, sweep_hi + 1):
+            yield ("chain", n, 0)
+            if n % 5 == 0:
+                yield ("revchain", n, 0)
+        for n in range(1, 201):
+            yield ("chain", n, 40)
+            yield ("revchain", n, 40)
+
     return [
+        Space.of("query-edit-query", gen_edit, check_tree, bounds={"ST_max_nodes": ed_hi, "edits": "every single re-parenting that keeps the tree well-formed", "how": build.EDIT_HOWS}),
+        Space.of("depth-sweep", gen_sweep, check_sweep, bounds={"chain_lengths": f"every n in 1..{sweep_hi} (default recursion limit); every n in 1..200 with recursion headroom 40"}, case_timeout=600),
         Space.of("trees", gen, check_tree, bounds={"LT_max_nodes": hi, "starts": "all", "modes": MODES, "apis": APIS}),
         Space.of("trees-low-recursion-limit", gen_lim, check_tree, bounds={"LT_max_nodes": lim_hi, "recursion_headroom": 40}),
         Space.of("deep", gen_big, check_big, bounds={"kinds": 5, "max_nodes": big_n}, case_timeout=600),
